@@ -28,6 +28,7 @@ type Profile struct {
 	HoldPct    int // share of checked txs that are admitted and then left in the mempool
 	Noise      int // calls on the non-consensus ABCI surfaces of the reference per block (upper bound)
 	Export     bool
+	ExportPct  int // chance per block of an export (and import) being taken
 }
 
 var dtShort = []int64{1, 400, 1000, 1000, 5000, 5000, 60000}
@@ -42,6 +43,7 @@ func profileFor(prop string, tier string) *Profile {
 		p.MaxTx = 12
 	}
 	p.Noise = 2
+	p.ExportPct = 12
 	p.HoldPct = 4
 	switch prop {
 	case "C01":
@@ -71,6 +73,7 @@ func profileFor(prop string, tier string) *Profile {
 		if prop == "C08" {
 			p.MaxTx = 12
 			p.Export = true
+			p.ExportPct = 4
 		}
 	case "C10":
 		p.W = map[string]int{"str": 45, "gov": 5, "bank": 4, "attack": 6, "multi": 5, "nest": 2}
@@ -248,13 +251,20 @@ func NewRun(prop string, seed int64, tier string) (*Trace, *Gen) {
 	} else if g.pct(25) {
 		k.StartPO, k.StartWrk, k.StartBeacon = 1000, 4294967295, 256
 	}
-	if (prop == "C15" || prop == "C08") && (tier == "thorough" && g.pct(10) || tier != "thorough" && g.pct(4)) {
+	if prop == "C15" && (tier == "thorough" && g.pct(10) || tier != "thorough" && g.pct(4)) || prop == "C08" && (tier == "thorough" && g.pct(6) || tier != "thorough" && g.pct(2)) {
 		// a registration with more records than an export carries, injected through genesis
 		k.BigReg = &BigReg{Kind: pick(r, []string{"wrk", "bcn"}), N: ExportCap + uint64(pick(r, []int{1, 2, 5, 300}))}
 		if k.StartWrk < 2 {
 			k.StartWrk, k.StartBeacon = 2, 2
 		}
 		t.Flags = append(t.Flags, "bigreg")
+	}
+	if prop == "C02" && g.pct(5) && !g.Flags["idwrap"] {
+		// an order the genesis document already holds (as an export taken between acceptance and
+		// completion would), sometimes for a purchaser no transaction could name: an account the
+		// bank refuses to credit, where completion cannot work and must not create coins
+		k.GenesisOrder = &GenOrder{Purchaser: pick(r, []int{3, 4, AddrFeeCollector, AddrBonded, AddrGov}), Amount: pick(r, []string{"777", "1000000"}), Status: pick(r, []int{1, 2, 2})}
+		t.Flags = append(t.Flags, "genesis-order")
 	}
 	if prop == "C02" && g.pct(3) {
 		k.UnbackedLocked = pick(r, []string{"1", "123456789", "1000000000000000000000"})
@@ -391,7 +401,7 @@ func (g *Gen) NextBlock(w *World, bi int) (BlockSpec, bool) {
 			b.Noise = append(b.Noise, g.genNoise(len(b.Txs)))
 		}
 	}
-	if g.P.Export && !inTail && bi > 3 && g.pct(12) {
+	if g.P.Export && !inTail && bi > 3 && g.pct(g.P.ExportPct) {
 		b.Export = true
 	}
 	return b, true
@@ -789,6 +799,10 @@ func (g *Gen) entMsg(w *World) MsgSpec {
 		if g.Flags["addr255"] && g.pct(30) {
 			b = -(100 + pick(g.R, []int{1, 2, 19, 21, 32, 33, 254, 255}))
 		}
+		if g.pct(6) {
+			// the governance account as a purchaser (it can act through proposals)
+			b = AddrGov
+		}
 		return MsgSpec{T: "ent.whitelist", A: g.entSigner(w), B: b, N: act}
 	}
 }
@@ -808,7 +822,9 @@ func (g *Gen) actorByAddr(w *World, bech string) int {
 // registries
 
 func randStr(r *rand.Rand, n int) string {
-	const cs = "abcdef0123456789"
+	// hex in both cases plus the characters of base64, paths and labels: stored values must come
+	// back exactly as submitted, spelling included
+	const cs = "abcdef0123456789abcdef0123456789ABCDEFGHXYZ+/=_-.:"
 	b := make([]byte, n)
 	for i := range b {
 		b[i] = cs[r.Intn(len(cs))]
@@ -1162,6 +1178,9 @@ func (g *Gen) govTx(w *World) TxSpec {
 	if g.pct(8) {
 		// governance executing an arbitrary custom message with itself as the named party
 		m := g.customMsg(w)
+		if w.M.Ent.Whitelist[ModuleAddr("gov").String()] && g.pct(60) {
+			m = MsgSpec{T: "ent.raise", Amt: u64s(uint64(1 + g.R.Intn(1000000))), Denom: w.M.Ent.Denom}
+		}
 		m.A = AddrGov
 		inner = append(inner, m)
 	}
